@@ -236,26 +236,7 @@ func c09Concat(r *fw.Run, p *fw.Program) {
 	ru.Check(okSel, "MultiReader.ReadBitsAt:select", pos, "first i with bitOff < readerEnds[i]", "MultiReader.ReadBitsAt: "+whySel)
 
 	// total end and EOF
-	var endPhi *ssa.Phi
-	fw.EachInstr(fn, func(ins ssa.Instruction) {
-		ph, ok := ins.(*ssa.Phi)
-		if !ok || len(ph.Edges) != 2 {
-			return
-		}
-		zero, last := false, false
-		for _, ed := range ph.Edges {
-			if c, isC := c09ConstInt(ed); isC && c == 0 {
-				zero = true
-			} else if x, i, isL := c09LoadIndex(ed); isL && isEnds(x) {
-				if okI, _ := s.is(i, "len(recv.readers) - 1"); okI {
-					last = true
-				}
-			}
-		}
-		if zero && last {
-			endPhi = ph
-		}
-	})
+	endPhi := c09TotalEnd(fn, s)
 	if endPhi == nil {
 		ru.Fail("MultiReader.ReadBitsAt:eof", pos, "total end (readerEnds[len(readers)-1], 0 when empty) not found")
 		return
@@ -356,4 +337,76 @@ func c09ReadsBack(v ssa.Value, st *ssa.Store) bool {
 	}
 	// no other store into that slice in between (there is a single store into it in this function)
 	return true
+}
+
+// c09TotalEndPhi: the phi {0 | recv.readerEnds[len(recv.readers)-1]} of f.
+func c09TotalEndPhi(f *ssa.Function, s *c09Sym) *ssa.Phi {
+	var out *ssa.Phi
+	fw.EachInstr(f, func(ins ssa.Instruction) {
+		ph, ok := ins.(*ssa.Phi)
+		if !ok || len(ph.Edges) != 2 {
+			return
+		}
+		zero, last := false, false
+		for _, ed := range ph.Edges {
+			if c, isC := c09ConstInt(ed); isC && c == 0 {
+				zero = true
+			} else if x, i, isL := c09LoadIndex(ed); isL {
+				if pth, okP := s.path(x); okP && pth == "recv.readerEnds" {
+					if okI, _ := s.is(i, "len(recv.readers) - 1"); okI {
+						last = true
+					}
+				}
+			}
+		}
+		if zero && last {
+			out = ph
+		}
+	})
+	return out
+}
+
+// c09TotalEnd: the value of fn that is the total end of the concatenation: the phi above, or a
+// call of a side-effect free method of the same receiver that returns exactly that phi (the
+// computation extracted into a helper). The call is given the stable name totalEnd(recv).
+func c09TotalEnd(fn *ssa.Function, s *c09Sym) ssa.Value {
+	if ph := c09TotalEndPhi(fn, s); ph != nil {
+		return ph
+	}
+	var out ssa.Value
+	fw.EachInstr(fn, func(ins ssa.Instruction) {
+		c, ok := ins.(*ssa.Call)
+		if !ok || c.Call.IsInvoke() {
+			return
+		}
+		g := c.Call.StaticCallee()
+		if g == nil || g.Blocks == nil || !fw.InFq(g) || g.Signature.Recv() == nil || len(g.Params) != 1 || len(c.Call.Args) != 1 || c.Call.Args[0] != ssa.Value(fn.Params[0]) {
+			return
+		}
+		pure := true
+		fw.EachInstr(g, func(gi ssa.Instruction) {
+			switch x := gi.(type) {
+			case *ssa.Store, *ssa.Go, *ssa.Defer, *ssa.Send, *ssa.MapUpdate:
+				pure = false
+			case *ssa.Call:
+				if !fw.IsBuiltinCall(x, "len") {
+					pure = false
+				}
+			}
+		})
+		if !pure {
+			return
+		}
+		gs := newC09Sym(g)
+		ph := c09TotalEndPhi(g, gs)
+		rts := c09Returns(g)
+		if ph == nil || len(rts) != 1 || len(rts[0].Results) != 1 || rts[0].Results[0] != ssa.Value(ph) {
+			return
+		}
+		out = c
+	})
+	if out != nil {
+		s.summarise(out, fw.PAtom("totalEnd(recv)"))
+	}
+	return out
 }
